@@ -29,7 +29,7 @@ Definition relax (q : params) (tbl : list (Z * cand)) (e : edge) : list (Z * can
       let amt := c_need cd in
       let pos := if e_src e =? q_payer q then O else S O in
       let cap_ok := match e_cap e with Some c => amt <=? c | None => true end in
-      if usable_b e && not_excluded_b q e && kind_ok_b q pos (e_kind e)
+      if usable_b e && not_excluded_b q (e_id e) e && kind_ok_b q pos (e_kind e)
          && (e_hmin e <=? amt) && (amt <=? e_hmax e) && cap_ok
          && negb (e_dst e =? q_payer q)
          && (match c_legs cd, e_kind e with
